@@ -104,6 +104,53 @@ Proof.
 Qed.
 Print Assumptions C17_client_unchecked_refuted.
 
+(** the same under transport faults: the reader receives any prefix of the body - the complete lines [ls] and then, per
+    [c], nothing more (CutBetween), a proper part of the next line (CutInside), or the next line without its newline
+    (CutBeforeNewline) - and then a read error instead of the end of the body (chunked terminator / Content-Length not
+    reached).  For every stream [ls ++ tail] with exactly one terminal line (last), any lengths, any status: the repaired
+    client never returns nil without a final message; it returns an error and no final message - except when the whole
+    content of the final line had arrived (only the newline or the end-of-body marker was lost): then the final message
+    was delivered and the call still reports the transport error. *)
+Theorem C17_client_transport_fault : forall max status ls tail c,
+  one_terminal_last line_terminal (ls ++ tail) ->
+  match c with
+  | CutNone => tail = []
+  | CutBetween => True
+  | CutInside _ => tail <> []
+  | CutBeforeNewline l => exists tl, tail = l :: tl
+  end ->
+  let '(d, r) := client_stream_cut true max status ls c in
+  (r = COk /\ one_terminal_last line_terminal d) \/
+  (exists e, r = CFail e /\ nonterm d) \/
+  (exists e, r = CFail e /\ one_terminal_last line_terminal d /\
+             match c with CutBetween => tail = [] | CutBeforeNewline l => tail = [l] | _ => False end).
+Proof. exact client_cut_terminal. Qed.
+Print Assumptions C17_client_transport_fault.
+
+(** a client that ends its loop silently on a read error (no scanner.Err() check; equally a json.Decoder loop
+    `for dec.More() {...}; return nil`) returns nil with no final message when the connection is lost between two lines *)
+Theorem C17_client_transport_fault_unchecked_refuted :
+  ~ (forall max status ls tail c,
+       one_terminal_last line_terminal (ls ++ tail) ->
+       let '(d, r) := client_stream_cut false max status ls c in
+       (r = COk /\ one_terminal_last line_terminal d) \/ (exists e, r = CFail e)).
+Proof.
+  intros H. specialize (H 512000%N 200%Z [LMsg 70 false] [LMsg 80 true] CutBetween).
+  assert (W : one_terminal_last line_terminal ([LMsg 70 false] ++ [LMsg 80 true])).
+  { exists [LMsg 70 false], (LMsg 80 true). repeat split; reflexivity. }
+  specialize (H W). vm_compute in H.
+  destruct H as [[_ (pre & t & E & Ht & _)]|[e E]]; [|discriminate].
+  destruct pre as [|p [|q pre]]; inversion E; subst; discriminate.
+Qed.
+Print Assumptions C17_client_transport_fault_unchecked_refuted.
+
+Example C17_client_transport_fault_nonvacuous :
+  client_stream_cut true 512000 200 [LMsg 70 false] CutBetween = ([LMsg 70 false], CFail ETransport) /\
+  client_stream_cut true 512000 200 [LMsg 70 false] (CutInside 10) = ([LMsg 70 false], CFail EUnmarshal) /\
+  client_stream_cut true 512000 200 [LMsg 70 false] (CutBeforeNewline (LMsg 80 true)) = ([LMsg 70 false; LMsg 80 true], CFail ETransport) /\
+  client_stream_cut true 512000 200 [LMsg 70 false; LMsg 80 true] CutNone = ([LMsg 70 false; LMsg 80 true], COk).
+Proof. vm_compute. repeat split; reflexivity. Qed.
+
 (** ** /api/chat with tools *)
 
 (** full statement: for every tool-call parser *)
@@ -192,6 +239,34 @@ Proof.
   - intros tools Ht. apply openai_chat_nonstream. exact Ht.
 Qed.
 Print Assumptions C17_openai_same_content_chat.
+
+(** tool-call indices.  An OpenAI client rebuilds the tool calls of a streamed /v1/chat/completions by merging the
+    tool_calls deltas of all chunks by their index ([reassemble]: same index = concatenate name and arguments).
+    For every parser, request shape, split and ending: the streamed deltas carry the handler's running toolCallIndex,
+    so merging by index gives back exactly the calls of the native stream, one per call, in order *)
+Theorem C17_openai_tool_index_stream : forall P cfg u o,
+  reassemble (sse_calls (v1chat_stream u false (chat_stream P cfg o))) = strip (rec_calls (chat_stream P cfg o)).
+Proof. exact openai_tool_index_stream. Qed.
+Print Assumptions C17_openai_tool_index_stream.
+
+(** ... and, under the parser hypotheses of C17_chat_equiv_tools_partial, for any two splits of one output that ends
+    with a final response: the reassembled calls are the tool_calls list of the non-streamed /v1 response *)
+Theorem C17_openai_tool_index_consistent : forall P, parser_nonempty P -> parser_additive P -> forall u o1 o2 r cnt,
+  text_of o1 = text_of o2 -> ending o1 = FDone [] r cnt -> ending o2 = ending o1 ->
+  reassemble (sse_calls (v1chat_stream u false (chat_stream P (mkCc true true) o1))) =
+  v1_calls (v1chat_nonstream (chat_nonstream P true o2)).
+Proof. exact openai_tool_index_consistent. Qed.
+Print Assumptions C17_openai_tool_index_consistent.
+
+(** two calls in two chunks and two calls in one chunk reassemble to the same two calls; with every delta at index 0
+    (what `Index = position inside the converted message` would produce) the merge collapses them into one *)
+Example C17_openai_tool_index_nonvacuous :
+  reassemble (sse_calls (v1chat_stream false false (chat_stream Pm (mkCc true true) (mkOut [[33]%N; [33]%N] (FDone [] RStop zeroc))))) =
+    [([33%N], []); ([33%N], [])] /\
+  reassemble (sse_calls (v1chat_stream false false (chat_stream Pm (mkCc true true) (mkOut [[33;33]%N] (FDone [] RStop zeroc))))) =
+    [([33%N], []); ([33%N], [])] /\
+  reassemble [mkCall [97%N] [49%N] 0; mkCall [98%N] [50%N] 0] = [([97;98]%N, [49;50]%N)].
+Proof. vm_compute. repeat split; reflexivity. Qed.
 
 (** all four views of one generate output and of one chat output without tools, for any two splits *)
 Theorem C17_openai_same_content : forall o1 o2,
